@@ -117,6 +117,15 @@ BEHAVIOUR_PRESERVING += [
                                        ('plonky2/src/batch_fri/verifier.rs', 'validate_batch_fri_proof_shape', 'validate_batched_fri_shape')], ['C05', 'C18', 'C03'], None),
 ]
 
+# ---- symbolic constraint count / accessor ranges
+M += [
+ ('r5_declared_count_too_small', [('plonky2/src/gates/arithmetic_base.rs', '    fn num_constraints(&self) -> usize {\n        self.num_ops\n    }', '    fn num_constraints(&self) -> usize {\n        self.num_ops - 1\n    }')], ['C07'], 'R07.3'),
+ ('r5_poseidon_outputs_rate_only', [('plonky2/src/gates/poseidon.rs', '        for i in 0..SPONGE_WIDTH {\n            constraints.push(state[i] - vars.local_wires[Self::wire_output(i)]);', '        for i in 0..8 {\n            constraints.push(state[i] - vars.local_wires[Self::wire_output(i)]);')], ['C07'], 'R07.'),
+]
+BEHAVIOUR_PRESERVING += [
+ ('bp_arithmetic_eval_as_iterator', [('plonky2/src/gates/arithmetic_base.rs', '        let mut constraints = Vec::with_capacity(self.num_ops);\n        for i in 0..self.num_ops {\n            let multiplicand_0 = vars.local_wires[Self::wire_ith_multiplicand_0(i)];\n            let multiplicand_1 = vars.local_wires[Self::wire_ith_multiplicand_1(i)];\n            let addend = vars.local_wires[Self::wire_ith_addend(i)];\n            let output = vars.local_wires[Self::wire_ith_output(i)];\n            let computed_output = multiplicand_0 * multiplicand_1 * const_0 + addend * const_1;\n\n            constraints.push(output - computed_output);\n        }\n\n        constraints\n    }\n\n    fn eval_unfiltered_base_one(', '        (0..self.num_ops)\n            .map(|i| {\n                let multiplicand_0 = vars.local_wires[Self::wire_ith_multiplicand_0(i)];\n                let multiplicand_1 = vars.local_wires[Self::wire_ith_multiplicand_1(i)];\n                let addend = vars.local_wires[Self::wire_ith_addend(i)];\n                let output = vars.local_wires[Self::wire_ith_output(i)];\n                let computed_output = multiplicand_0 * multiplicand_1 * const_0 + addend * const_1;\n                output - computed_output\n            })\n            .collect()\n    }\n\n    fn eval_unfiltered_base_one(')], ['C07', 'C02'], None),
+]
+
 def run(name, subs, checks):
     args = [os.path.join(V, 'selftest', 'mutrun.py')]
     for f, o, n in subs:
